@@ -757,14 +757,16 @@ class SsbGraphMinimizer:
                     in_edges = v.in_edges()
                     out_edges = v.out_edges()
                     if len(in_edges) == 0:
-                        if v["op"].referenced_from_other_routine:
-                            # Jumps from other routines are not part of this graph.
+                        if v["op"].referenced_from_other_routine or v.index == 0:
+                            # Jumps from other routines are not part of this graph. The routine starts with the first
+                            # vertex, it's not unreachable.
                             continue
                         vs_to_delete.add(v)
                     elif len(in_edges) == 1:
                         assert len(out_edges) == 1
                         if (
                             v["op"].id == 0
+                            or v.index == 0
                             or in_edges[0]["loop"]
                             or (
                                 isinstance(v["op"], SsbLabel)
